@@ -170,7 +170,8 @@ fn gen_args(name: &str, rng: &mut Rng) -> Vec<A> {
         "reverse" => vec![A::V(if rng.chance(1, 2) { Value::String(string(rng)) } else { Value::Array((0..rng.below(8)).map(|_| gen_doc(rng, 1)).collect()) })],
         "to_array" | "type" | "to_string" => vec![A::V(gen_doc(rng, 2))],
         "to_number" => {
-            const NUMERALS: [&str; 28] = [
+            const NUMERALS: [&str; 40] = [
+                "-", " - ", "-\n", "+", ".", "e", "-e1", "--1", "-.5", "1e", "1e+", "-0.0",
                 "0", "-0", "1", "-1", "12", "1.5", "-2.25", "1e3", "1E+2", "2e-2", "0.0", "123456789", "+1", ".5", "01", "1.", "0x10", "NaN",
                 "Infinity", "abc", "", " 12 ", "12 ", "\"abc\"", "[1]", "true", "null", "1 2",
             ];
